@@ -107,6 +107,9 @@ def w_explicit(ctx, rng, idx):
     ok, sol = call('ode.explicit_euler', ode.explicit_euler, A, x0, hs, prop=P, threshold=thr, max_rank=10 ** 6, normalize=nz, progress=False)
     if ok:
         call('ode.errors_expl_euler', ode.errors_expl_euler, A, sol, hs, prop=P)
+    if rng.random() < 0.5:  # the same operator / initial objects again, other step sizes (anything remembered between calls shows here)
+        hs2 = steps(rng)
+        call('ode.explicit_euler', ode.explicit_euler, A, x0, hs2, prop=P, threshold=thr, max_rank=10 ** 6, normalize=nz, progress=False, tags=['second_call'])
     if idx < 2:
         ctx.sample({'workload': 'explicit', 'dims': dims, 'markov_generator': markov, 'complex': cplx, 'step_sizes': hs, 'normalize': nz})
 
@@ -128,6 +131,10 @@ def w_implicit(ctx, rng, idx):
     if ok:
         efn = ode.errors_impl_euler if scheme == 'implicit_euler' else ode.errors_trapezoidal
         call('ode.' + efn.__name__, efn, A, sol, hs, prop=P)
+    if rng.random() < 0.5:  # same objects, other step sizes / other inner solver
+        tts2 = ['als', 'mals'][int(rng.integers(0, 2))] if len(dims) >= 2 else 'als'
+        call('ode.' + scheme, fn, A, x0, g, steps(rng), prop=P, refusals=(np.linalg.LinAlgError,), tt_solver=tts2, micro_solver=['solve', 'lu'][int(rng.integers(0, 2))],
+             normalize=nz, progress=False, threshold=0.0, repeats=1, tags=['second_call'])
     if idx < 2:
         ctx.sample({'workload': 'implicit', 'scheme': scheme, 'dims': dims, 'markov_generator': markov, 'step_sizes': hs, 'normalize': nz, 'tt_solver': tts, 'micro_solver': micro})
 
@@ -157,6 +164,22 @@ def w_hod(ctx, rng, idx):
                   'previous_ranks': prev.ranks if prev is not None else None})
     kw = {} if prev is None else {'previous_value': prev}
     call('ode.hod', ode.hod, A, x0, h, N, prop=P, order=order, threshold=[0.0, 1e-14][int(rng.integers(0, 2))], max_rank=10 ** 6, normalize=nz, progress=False, **kw)
+    # the same operator object (and step size) again with one setting changed: another order, another step size, or the operator
+    # rescaled in place by its owner between the calls
+    for _ in range(int(rng.integers(0, 3))):
+        what = int(rng.integers(0, 3))
+        order2, h2 = order, h
+        if what == 0:
+            order2 = [o for o in (2, 4, 6) if o != order and max(A.ranks) ** (o - 1) <= 1500][:1]
+            if not order2:
+                continue
+            order2 = order2[0]
+        elif what == 1:
+            h2 = float(rng.uniform(0.05, 0.4))
+        else:
+            with probe.oracle():
+                A.cores[0] = A.cores[0] * float(rng.uniform(0.5, 0.9))
+        call('ode.hod', ode.hod, A, x0, h2, N, prop=P, order=order2, threshold=0.0, max_rank=10 ** 6, normalize=nz, progress=False, tags=['second_call'], **kw)
 
 
 def w_errors(ctx, rng, idx):
